@@ -4,7 +4,6 @@
 package interp
 
 import (
-	"crypto/sha256"
 	"encoding/base64"
 	"encoding/hex"
 	"fmt"
@@ -128,7 +127,7 @@ func init() {
 			return mkString(bytesSegs(*bufField(p, idx)))
 		}
 		externals[recv+"Len"] = func(fr *frame, args []value) value {
-			segs := fr.i.ex.flattenSegs(bytesSegs(*bufField(args[0].(*value), idx)))
+			segs := strSegs(fr.i.ex.flatten(mkString(bytesSegs(*bufField(args[0].(*value), idx)))))
 			return len(segs)
 		}
 		externals[recv+"Reset"] = func(fr *frame, args []value) value {
@@ -158,8 +157,7 @@ func init() {
 		d := (*args[0].(*value)).(nativeObj).v.(*digestState)
 		prefix := bytesSegs(args[1])
 		if s, ok := mkString(d.pre).(string); ok {
-			sum := sha256.Sum256([]byte(s))
-			return segsBytes(append(append([]Seg(nil), prefix...), strSegs(string(sum[:]))...))
+			return segsBytes(append(append([]Seg(nil), prefix...), strSegs(nativeDigest("sha256", s))...))
 		}
 		fr.i.ex.Assumption("SHA-256 is collision free: digests are equal iff their preimages are equal")
 		pre := SymString{S: append([]Seg(nil), d.pre...)}
@@ -170,6 +168,9 @@ func init() {
 			segs := bytesSegs(args[len(args)-1])
 			if !hasTokens(segs) {
 				if s, ok := mkString(segs).(string); ok {
+					if pre, ok := knownDigests.Load("sha256|" + s); ok {
+						return nativeDigest("sha256+"+name, pre.(string))
+					}
 					return native([]byte(s))
 				}
 				return fr.concretiseStringCall(mkString(segs), func(s string) value { return native([]byte(s)) })
@@ -217,7 +218,7 @@ func init() {
 	}
 	externals["regexp.Match"] = func(fr *frame, args []value) value {
 		pat := fr.i.ex.flatten(args[0])
-		subj := mkString(fr.i.ex.flattenSegs(bytesSegs(args[1])))
+		subj := fr.i.ex.flatten(mkString(bytesSegs(args[1])))
 		run := func(p, s string) value {
 			re, err := regexp.Compile(p)
 			if err != nil {
